@@ -392,12 +392,19 @@ impl Retrier {
         //            waste a retry cycle with a request that will always fail.
         {
             let mut state = self.wt_client.lock().unwrap();
-            if !state
-                .get_tower_status(&self.tower_id)
-                .unwrap()
-                .is_subscription_error()
-            {
-                state.set_tower_status(self.tower_id, TowerStatus::TemporaryUnreachable);
+            match state.get_tower_status(&self.tower_id) {
+                Some(status) => {
+                    if !status.is_subscription_error() {
+                        state.set_tower_status(self.tower_id, TowerStatus::TemporaryUnreachable);
+                    }
+                }
+                None => {
+                    // The tower may have been abandoned since the retrier was flagged to be (re)started (e.g. right after
+                    // it finished idling). There is nothing to retry: the manager drops a stopped retrier with no data.
+                    log::info!("Skipping retrying abandoned tower {}", self.tower_id);
+                    self.pending_appointments.lock().unwrap().clear();
+                    return;
+                }
             }
         }
         self.set_status(RetrierStatus::Running);
